@@ -109,18 +109,22 @@ def cwd(interp):
     return g['cwd']
 
 
+def _strictly_below(interp, e, s):
+    """bool / SBool: entry e lies strictly below the directory s"""
+    from . import strings
+    prefix = strings.concat(interp, s, '/')
+    if isinstance(e, str) and isinstance(prefix, str):
+        return e.startswith(prefix)
+    return strings.call_method(interp, e if isinstance(e, SStr) else SStr(z3.StringVal(e)),
+                               'startswith', [prefix], {})
+
+
 def _below_or_same(interp, e, s):
     """bool / SBool: entry e is s or lies below s"""
-    from . import strings
     same = interp.eq(e, s)
     if same is True:
         return True
-    prefix = strings.concat(interp, s, '/') if isinstance(s, (SStr, str)) else s
-    if isinstance(e, str) and isinstance(prefix, str):
-        below = e.startswith(prefix)
-    else:
-        below = strings.call_method(interp, e if isinstance(e, SStr) else SStr(z3.StringVal(e)),
-                                    'startswith', [prefix], {})
+    below = _strictly_below(interp, e, s)
     if below is True:
         return True
     if same is False:
@@ -128,6 +132,14 @@ def _below_or_same(interp, e, s):
     if below is False:
         return same
     return wrap(z3.Or(to_z3(same), to_z3(below)))
+
+
+def _implies(interp, a, b):
+    if a is False or b is True:
+        return True
+    if a is True:
+        return b
+    return wrap(z3.Implies(to_z3(a), to_z3(b)))
 
 
 def _raise(exc):
@@ -238,7 +250,13 @@ def m_fs_resolve(interp, args, kwargs):
     s = path._s
     r = SStr(interp.st.fresh_str('resolved'))
     f = fs(interp)
-    # another name of the same entry
+    # another name of the same entry: it is neither above nor below the original name, and a known entry
+    # lies at or below the new name only if it lies at or below the original one
+    st = interp.st
+    st.assume(interp.not_(_strictly_below(interp, s, r)))
+    st.assume(interp.not_(_strictly_below(interp, r, s)))
+    for e in f['dirs'] + f['files']:
+        st.assume(_implies(interp, _below_or_same(interp, e, r), _below_or_same(interp, e, s)))
     if interp.branch(_member(interp, s, f['dirs'])):
         f['dirs'].append(r)
     elif interp.branch(_member(interp, s, f['files'])):
